@@ -165,9 +165,9 @@ func (w *World) settle() {
 		if p == nil || p.exists {
 			continue
 		}
-		if r.ip.PodUID != "" && (!w.delComplete[r.ip.PodUID] || !w.addOK[r.ip.PodUID]) {
+		if r.ip.PodUID != "" && (!w.delComplete[r.ip.PodUID] || !w.addOK[r.ip.PodUID] || w.reportLost[r.ip.PodUID]) {
 			// DEL never delivered, or delivered to an agent that holds no record of the pod (taken
-			// over, database lost): the agent first copies the uid back from the record (every
+			// over, database lost), or the agent restarted before it flushed the report: the agent first copies the uid back from the record (every
 			// 5 min), then its collection (every 5 min) reports the teardown once that entry is
 			// 30 s old; the two writers of the runtime object can undo one another once more.
 			if time.Since(p.goneAt) < 21*time.Minute+time.Duration(w.rtSeen[r.ip.PodUID].lost)*5*time.Minute {
@@ -176,6 +176,12 @@ func (w *World) settle() {
 			}
 		}
 		if time.Since(p.goneAt) < 5*time.Minute {
+			continue
+		}
+		if seen := w.rtSeen[r.ip.PodUID]; !seen.del.IsZero() && seen.del.Equal(seen.ini) {
+			// "initial" and "deleted" carry the same stamp: which one is final follows map order in
+			// the implementation, every pass draws again; no bound can be stated (11.2 observations)
+			w.run.Probe("reclaim-liveness-not-judged-equal-stamps")
 			continue
 		}
 		w.run.Violate("C03", "reclaim-liveness", "address-never-reclaimed", "%s is still bound to %s (uid %q) %s after the pod vanished (DEL processed: %v), %d s after faults stopped", ip, r.ip.PodID, r.ip.PodUID, time.Since(p.goneAt).Round(time.Second), w.delComplete[r.ip.PodUID], w.sc.SettleS)
@@ -210,7 +216,7 @@ func (w *World) forceFullSync() {
 			return
 		}
 		node.Status.NextSyncOpenAPITime = metav1.NewTime(time.Now().Add(-time.Second))
-		if err := w.api.Inner.Status().Update(context.Background(), node); err != nil {
+		if err := w.api.DirectWrite(node, func() error { return w.api.Inner.Status().Update(context.Background(), node) }); err != nil {
 			continue
 		}
 		w.notify()
@@ -350,6 +356,8 @@ func (w *World) fixedPoint() {
 				ptag := ""
 				if w.pinnedPod(node) == p.spec.Name {
 					ptag = "@pod-pinned-to-interface-without-idle-address"
+				} else if w.idleFamiliesApart(node) {
+					ptag = "@idle-families-on-different-interfaces"
 				}
 				w.run.Violate("C08", "convergence", "eligible-pod-without-address"+ptag, "pod %s exists but is bound to %v/%v, %d fake seconds into a fault-free settle phase with capacity left", p.spec.Name, v4, v6, w.sc.SettleS)
 			}
@@ -429,6 +437,42 @@ func (w *World) pinnedPod(node *networkv1beta1.Node) string {
 		}
 	}
 	return ""
+}
+
+// idleFamiliesApart (K3d): dual stack, the idle IPv4 addresses and the idle IPv6 addresses sit on
+// different interfaces. The demand is computed per family over all interfaces in sequence
+// ("enough idle IPv4, enough idle IPv6"), but a pod needs both on one interface: nothing is added
+// and the pod waits for ever.
+func (w *World) idleFamiliesApart(node *networkv1beta1.Node) bool {
+	if !w.cfg.v4() || !w.cfg.v6() {
+		return false
+	}
+	only4, only6, both := false, false, false
+	for _, ni := range node.Status.NetworkInterfaces {
+		if ni.Status != aliyunClient.ENIStatusInUse || ni.NetworkInterfaceTrafficMode == networkv1beta1.NetworkInterfaceTrafficModeHighPerformance {
+			continue
+		}
+		i4, i6 := false, false
+		for _, ip := range ni.IPv4 {
+			if ip != nil && ip.PodID == "" && ip.Status == networkv1beta1.IPStatusValid {
+				i4 = true
+			}
+		}
+		for _, ip := range ni.IPv6 {
+			if ip != nil && ip.PodID == "" && ip.Status == networkv1beta1.IPStatusValid {
+				i6 = true
+			}
+		}
+		switch {
+		case i4 && i6:
+			both = true
+		case i4:
+			only4 = true
+		case i6:
+			only6 = true
+		}
+	}
+	return only4 && only6 && !both
 }
 
 func (w *World) knownCycleCause(node *networkv1beta1.Node) string {
